@@ -1,17 +1,20 @@
 (** C01 - write-then-read round trip returns exactly the table that was written.
-    This file only restates lemmas proved in Writer/LevelProofs.v and Writer/WriterProofs.v
-    (models: Writer/PageWriterModel.v, Reader/PageDecodeModel.v; table semantics: Writer/TableSpec.v).
+    This file only restates lemmas proved in Writer/{LevelProofs,WriterProofs,ChunkProofs,FileProofs}.v.
+    Models: Writer/{PageWriter,ColumnWriter,FileWriter}Model.v (the repaired writer), Reader/{PageDecode,ReadAll}Model.v,
+    Reader/FooterModel.v (reader owner).  Table semantics: Writer/TableSpec.v (independent of every model).
 
-    Full statement (kept visible; proved layer by layer, see design.d/C01.md):
-      forall schema options ops,  table_of schema ops = Some t ->  run_writer schema options ops = Ok (sts, w, true) ->
-      all_ok sts = true ->  drop_empty (read_all (f_out w)) = Ok (result_of_table t)
-    i.e. same schema, row count, partition into non-empty row groups, null positions and bit-identical values for
-    every partition of every column's rows into write_batch calls; OPTIONAL without definition levels reads back
-    all-present.  Proved so far: the page layer below.  Missing: chunk layer (pages in sequence, flush rule),
-    file layer (offsets, footer round trip as hypothesis). *)
-From Coq Require Import NArith List.
-From Carquet Require Import Base.Res Enc.RleModel Enc.DeltaBits Enc.PlainModel Writer.TableSpec Writer.PageWriterModel
-     Reader.PageDecodeModel Writer.LevelProofs Writer.WriterProofs.
+    The layers are stated separately (page, chunk) and composed (file).  The composed theorem carries, as explicit
+    premises, what other properties establish or what is external:
+      - codec round trip  decompress (compress b) |b| = b     C09/C10 for carquet's Snappy and LZ4; zlib, zstd external
+      - the page-header and footer parsers read back what the encoders wrote                         C13 (Thrift)
+      - sizes that fit the int32/uint32 fields of the format (chunk totals < 2^31, footer < 2^32).
+    Not covered by the proof (observed by the check): pointer lifetime of byte-array results; consumption
+    histories other than one large read_batch per chunk are C02 (cursor_refines), the three I/O paths C03. *)
+From Coq Require Import NArith ZArith List.
+From Carquet Require Import Base.Res Gen.Enums_gen Enc.RleModel Enc.DeltaBits Enc.PlainModel
+     Writer.TableSpec Writer.PageWriterModel Writer.ColumnWriterModel Writer.FileWriterModel
+     Reader.PageDecodeModel Reader.ReadAllModel
+     Writer.LevelProofs Writer.WriterProofs Writer.ChunkProofs Writer.FileProofs.
 Import ListNotations.
 Local Open Scope N_scope.
 
@@ -36,11 +39,58 @@ Theorem c01_any_partition_same_page : forall c bs w rows, PInv c w rows -> foral
 Proof. exact add_all_inv. Qed.
 Print Assumptions c01_any_partition_same_page.
 
-(** Page layer of the round trip: decoding the finalized page body with the reader's page decoder gives back the
-    rows written - null positions and bit-identical values. *)
-Theorem c01_page_body_roundtrip_partial : forall c w rows, column_ok c = true -> PInv c w rows -> rows <> [] ->
+(** Page layer: decoding the finalized page body with the reader's page decoder gives back the rows written -
+    null positions and bit-identical values (an OPTIONAL column written without levels: all present). *)
+Theorem c01_page_body_roundtrip : forall c w rows, column_ok c = true -> PInv c w rows -> rows <> [] ->
   len rows < 2 ^ 31 -> len (page_body w) < 2 ^ 31 ->
   exists defs vals, read_data_page_v1 c (page_body w) (p_num_values w) = Ok (defs, vals)
                     /\ rows_of_page c defs vals = rows.
 Proof. exact page_body_roundtrip. Qed.
-Print Assumptions c01_page_body_roundtrip_partial.
+Print Assumptions c01_page_body_roundtrip.
+
+(** Chunk layer: for every partition of a column's rows into write_batch calls and every target page size (any
+    number of pages, cut wherever the size estimate says), reading the chunk page after page - header, CRC,
+    decompression, page decode - wherever it lies in the file returns exactly the rows written. *)
+Theorem c01_chunk_roundtrip :
+  forall (codec : Z) (compress : list N -> list N) (decompress : list N -> N -> res (list N))
+         (header : page_hdr -> list N) (parse_header : list N -> res (hdr_core * N)) (verify : bool),
+  (Z.eqb codec E_CARQUET_COMPRESSION_UNCOMPRESSED = true -> forall b, compress b = b) ->
+  (Z.eqb codec E_CARQUET_COMPRESSION_UNCOMPRESSED = false -> forall b, decompress (compress b) (len b) = Ok b) ->
+  (forall h rest, parse_header (header h ++ rest) = Ok (core_of h, len (header h))) ->
+  (forall h, len (header h) <= 256) -> (forall h, 0 < len (header h)) ->
+  forall c page_size bs w, column_ok c = true -> forallb (batch_ok c) bs = true ->
+  cw_write_all compress header (cw_init c page_size) bs = Ok w ->
+  let f := cw_finalize compress header w in
+  w_total_values f < 2 ^ 31 -> w_total_uncompressed f < 2 ^ 31 ->
+  w_total_values f = len (rows_of c bs) /\
+  forall pre post fuel, (length (w_buf f) <= fuel)%nat ->
+    read_chunk codec decompress parse_header verify fuel c (pre ++ w_buf f ++ post) (len pre) (w_total_values f)
+    = Ok (rows_of c bs).
+Proof. exact chunk_roundtrip. Qed.
+Print Assumptions c01_chunk_roundtrip.
+
+(** The property: for every flat schema, every options record (codec, page size), every write history [ops] that
+    denotes a table [t] (TableSpec.table_of: any partition of every column's rows into write_batch calls, row
+    groups cut anywhere, zero-row calls, redundant new_row_group calls, OPTIONAL columns written without
+    definition levels) - every writer call returns OK, the file re-opens, and reading it back yields the same
+    schema, the same row count, the same partition into non-empty row groups and, per column, the same null
+    positions and bit-identical values. *)
+Theorem c01_write_read_roundtrip :
+  forall (compress : list N -> list N) (decompress : list N -> N -> res (list N))
+         (header : page_hdr -> list N) (parse_header : list N -> res (hdr_core * N))
+         (footer : file_meta -> list N) (parse_footer : list N -> res file_meta) (verify : bool)
+         (sch : list column) (opts : options),
+  (Z.eqb (o_codec opts) E_CARQUET_COMPRESSION_UNCOMPRESSED = true -> forall b, compress b = b) ->
+  (Z.eqb (o_codec opts) E_CARQUET_COMPRESSION_UNCOMPRESSED = false -> forall b, decompress (compress b) (len b) = Ok b) ->
+  (forall h rest, parse_header (header h ++ rest) = Ok (core_of h, len (header h))) ->
+  (forall h, len (header h) <= 256) -> (forall h, 0 < len (header h)) ->
+  (forall m, parse_footer (footer m) = Ok m) ->
+  forallb column_ok sch = true ->
+  forall ops t, table_of sch ops = Some t ->
+  exists sts w, run_writer compress header footer sch opts ops = Ok (sts, w, true) /\ all_ok sts = true /\
+    (Forall (fun g => Forall small_chunk (rg_chunks g)) (f_groups w) ->
+     len (footer (mkfm 2 sch (f_total_rows w) (f_groups w) (created_by opts))) < 2 ^ 32 ->
+     exists r, read_all (o_codec opts) decompress parse_header parse_footer verify (f_out w) = Ok r
+               /\ drop_empty r = result_of_table t).
+Proof. exact write_read_roundtrip. Qed.
+Print Assumptions c01_write_read_roundtrip.
